@@ -109,6 +109,68 @@ class ClassInfo:
         self.methods = {}
 
 
+def _fold_module_constants(tree):
+    """A module-level name that is bound exactly once, to a literal (a stop
+    name, a tolerance, an order letter hoisted out of the functions), is
+    replaced by that literal wherever a function reads it and does not shadow
+    it.  Every rule then sees the literal, however the constant is spelt."""
+    consts = {}
+    stores = {}
+    for n in ast.walk(tree):
+        if isinstance(n, ast.Name) and isinstance(n.ctx, (ast.Store, ast.Del)):
+            stores[n.id] = stores.get(n.id, 0) + 1
+        if isinstance(n, ast.Global):
+            for g in n.names:
+                stores[g] = stores.get(g, 0) + 2
+        if isinstance(n, (ast.arg,)):
+            pass
+    for st in tree.body:
+        if isinstance(st, ast.Assign) and len(st.targets) == 1 and \
+                isinstance(st.targets[0], ast.Name) and \
+                isinstance(st.value, ast.Constant) and \
+                stores.get(st.targets[0].id, 0) == 1 and \
+                isinstance(st.value.value, (str, int, float, bool,
+                                            type(None))):
+            consts[st.targets[0].id] = st.value
+        if isinstance(st, ast.Assign) and len(st.targets) == 1 and \
+                isinstance(st.targets[0], ast.Name) and \
+                isinstance(st.value, ast.UnaryOp) and \
+                isinstance(st.value.op, ast.USub) and \
+                isinstance(st.value.operand, ast.Constant) and \
+                stores.get(st.targets[0].id, 0) == 1:
+            consts[st.targets[0].id] = st.value
+    if not consts:
+        return
+
+    class R(ast.NodeTransformer):
+        def __init__(self):
+            self.shadow = [set()]
+
+        def _fn(self, node):
+            a = node.args
+            names = {x.arg for x in a.posonlyargs + a.args + a.kwonlyargs}
+            if a.vararg:
+                names.add(a.vararg.arg)
+            if a.kwarg:
+                names.add(a.kwarg.arg)
+            self.shadow.append(self.shadow[-1] | names)
+            self.generic_visit(node)
+            self.shadow.pop()
+            return node
+        visit_FunctionDef = _fn
+        visit_Lambda = _fn
+
+        def visit_Name(self, node):
+            if isinstance(node.ctx, ast.Load) and node.id in consts and \
+                    node.id not in self.shadow[-1] and len(self.shadow) > 1:
+                import copy
+                new = copy.deepcopy(consts[node.id])
+                return ast.copy_location(new, node)
+            return node
+    R().visit(tree)
+    ast.fix_missing_locations(tree)
+
+
 class Module:
     def __init__(self, name, path, src):
         self.name = name
@@ -122,6 +184,7 @@ class Module:
                 self.tree = ast.parse(src, filename=path)
         except SyntaxError as e:
             raise AnalysisError('syntax error in %s: %s' % (path, e))
+        _fold_module_constants(self.tree)
         self.imports = {}      # local alias -> qualified external / 'teneva' / 'teneva.mod:name'
         self.functions = {}    # top-level name -> Function
         self.classes = {}      # name -> ClassInfo
